@@ -520,3 +520,28 @@ let () = register "c06lb" (fun line ->
         | _ -> let r1 = draw () in let r2 = draw () in dec_of_n (HostSet.least_pick r1 r2 cs)))
     end
   | _ -> failwith "bad c06lb case")
+
+(* ---------------- C19: hot key counter and collector ---------------- *)
+let () = register "c19" (fun line ->
+  match S.split_on_char ' ' line with
+  | cap :: ops ->
+    let cap = n_of_int (int_of_string cap) in
+    let b = ref [] in
+    let outs = L.map (fun op ->
+      match Stdlib.String.get op 0 with
+      | 'L' ->
+        let kv = L.concat (L.map (fun (f, ks) -> L.map (fun k -> dec_of_n k ^ "=" ^ dec_of_n f) ks) !b) in
+        b := Counter.cstep cap !b Counter.CLatch;
+        "latch{" ^ S.concat "," (L.sort compare kv) ^ "}"
+      | c ->
+        b := Counter.cstep cap !b (if c = 'F' then Counter.CFree else Counter.CIncr (n_of_dec (S.sub op 1 (S.length op - 1))));
+        "ok[" ^ S.concat "|" (L.map (fun (f, ks) -> dec_of_n f ^ ":" ^ S.concat "," (L.map dec_of_n ks)) !b) ^ "]") ops in
+    S.concat " " outs
+  | _ -> failwith "bad c19 case")
+
+(* the collector's report is checked against the property itself by the harness (the logarithmic
+   counters are random); the model side just states what a correct report looks like *)
+let () = register "c19col" (fun line ->
+  match S.split_on_char ' ' line with
+  | _ :: steps -> S.concat " " (L.map (fun _ -> "ok") steps)
+  | _ -> "")
